@@ -14,6 +14,12 @@ CLAIMED = {
  'C06': dict(text='Bounded symbolic model checking of restart histories: appends and consuming reads, a clean shutdown, and the real Walrus::with_paths/startup_chore/rebuild_topic_entry_counts_after_recovery/cursor hydration interpreted on the model file system; sizes symbolic (<= 32 MiB in multi-operation histories, every accepted size in the single-append history); oracle: the stream, order, remaining entries and counts are what they would be without the restart.',
              note=ENGINE_NOTE + ' The wall clock is monotone in this model (clock regression between runs is outside the claim).',
              technique='source-level symbolic execution of recovery and read paths (z3 bit-vectors, extent file model surviving the process), native replay gate', ref='7/C06'),
+ 'C12': dict(text='Bounded symbolic model checking of the real reclamation bookkeeping (BlockStateTracker, FileStateTracker, flush_check, deletion channel) on a concrete history that fully allocates and seals a 1000 MiB file shared by two topics, followed by every sequence of up to 3 (quick) / 4 (thorough) reads, peeks and batch reads with symbolic budgets; oracle: a file reaches the deletion channel only when every entry stored in it was consumed. Counterexamples are replayed with the real background reclaimer (1 ms ticks), a restart and a drain of every topic.',
+             note=ENGINE_NOTE + ' One concrete allocation prefix; other file layouts and longer suffixes are outside the claim.',
+             technique='source-level symbolic execution of allocator/tracker code (z3), native replay with the real reclaimer thread', ref='7/C12'),
+ 'C13': dict(text='Same driver with two instances (different namespace keys) in one process: the second instance builds and reads through its own sealed blocks (fixed suffixes of up to 8 reads/peeks plus all suffixes of length <= 2); oracle: nothing the second instance does gets a file of the first instance handed to the deletion channel while it holds unconsumed entries; replay drains both instances after a restart.',
+             note=ENGINE_NOTE + ' Only the reclamation channel of interference is decided (entries, cursors, counts and markers of the other instance are compared only in the native replays).',
+             technique='source-level symbolic execution with process-global statics shared by two model instances (z3), native replay', ref='7/C13'),
  'C14': dict(text='Bounded symbolic model checking of the real sanitize_namespace and WalPathManager::{with_data_dir, for_key, default}: the key is a vector of arbitrary Unicode scalar values of every length 0..8 (quick) / 0..24 (thorough); z3 shows the pushed directory component is non-empty, free of separators/NUL and neither "." nor ".."; counterexamples are replayed by building a real instance and listing where its files appear.',
              note='Trusted: AST dump, interpreter, models of PathBuf::push, chars/map/collect, is_ascii_alphanumeric, trim_matches, format!("ns_{:x}"); differential-tested against the real builder on concrete keys on every run. Longer keys are outside the claim.',
              technique='source-level symbolic execution (z3, strings as code-point vectors, If-merged per-character closure), native replay gate', ref='7/C14'),
